@@ -149,7 +149,7 @@ def gen_func(rng, prof, idx, nfuncs):
             stmts.append(['raise', 50 + idx])
     r = rng.choice(prof['rets'])
     if r == 'const':
-        r = {'const': enc_simple(rng.choice([0, 'r', [1, [2]], {'a': None}, 2.5, None]))}
+        r = {'const': enc_simple(rng.choice([0, 'r', [1, [2]], {'a': None}, 2.5, None, {0: 'x', 1: 'y'}, {1.0: 'x', True: 'y'}, {-0.0: 1, None: 2}, (1, {2: [3]})]))}
     if idx == 0:
         r = 'acc'
     return {'name': 'f%d' % idx, 'stmts': stmts, 'ret': r}
@@ -392,7 +392,8 @@ VERSION_POOL = [None, 0, 1, 1.0, True, '1', [1], {'a': 1, 'b': 2}, {'b': 2, 'a':
                 {1: 'a'}, {'1': 'a'}, {'k': {2023: 'a', None: 1}}, (1, 2), {True: 0}, {'k': (1, [2, (3,)])}]
 
 
-VERSION_PAIRS = [({1: 'a'}, {'1': 'a'}), ({'k': {2: 'x'}}, {'k': {'2': 'x'}}), ({None: 1}, {'null': 1}), ({'k': (1, 2)}, {'k': [1, 2]}), ({2023: 'a'}, {2023: 'a'}),
+VERSION_PAIRS = [(True, 1.0), (False, 0.0), ([False], [-0.0]), ({'k': True}, {'k': 1.0}), ({1.0: 'a'}, {'1.0': 'a'}), ({1.0: 'a'}, {1: 'a'}),
+                 ({1: 'a'}, {'1': 'a'}), ({'k': {2: 'x'}}, {'k': {'2': 'x'}}), ({None: 1}, {'null': 1}), ({'k': (1, 2)}, {'k': [1, 2]}), ({2023: 'a'}, {2023: 'a'}),
                  ({'opt': None, 'level': 1}, {'level': 1, 'mode': 'fast'}), ({'a': None}, {'b': None}), ({'a': None}, {}), ({'a': None}, None),
                  ({'k': {'a': None}}, {'k': {'b': None}}), ([None], []), ([None], [None, None]), (0, None), (0, False), ('', None), ([], None), ({}, None),
                  (0.0, 0), (1, 1.0), (1, True), ({'a': 1, 'b': 2}, {'b': 2, 'a': 1}), ([1, 2], (1, 2)), ({'a': [1, 2.0]}, {'a': [1.0, 2]}), ('1', 1),
@@ -412,6 +413,12 @@ def scen_versions(rng):
     ]
     funcs.append(_fn('rootfail', funcs[0]['stmts'] + [['raise', 99]]))
     names = ['f1', 'f2', 'f3', 'f4', 'f5', 'other']
+    if rng.random() < 0.4:
+        # user functions may be called what the library calls its own queries
+        alias = dict(zip(['f1', 'f2', 'f3', 'f4', 'f5'], rng.sample(['read', 'list_dir', 'walk', 'exists', 'is_file', 'is_dir', 'get_size'], 5)))
+        for f in funcs:
+            f['name'] = alias.get(f['name'], f['name'])
+        names = [alias.get(n, n) for n in names]
     v = {}
     steps = []
     for _ in range(rng.randint(3, 5)):
@@ -482,6 +489,9 @@ ARG_PAIRS = [  # (first build, second build, same JSON value?)
     # keys that collide once stringified: the LAST one wins (json.dumps writes both, json.loads keeps the last)
     ({8: 'a', '8': 'b'}, {'8': 'b'}, True), ({8: 'a', '8': 'b'}, {'8': 'a'}, False), ({'k': {None: 1, 'null': 2}}, {'k': {'null': 2}}, True),
     ({True: 1, 'true': 2}, {'true': 1}, False), ({'1.5': 'x', 1.5: 'y'}, {'1.5': 'y'}, True),
+    # float keys are spelled by repr: 1.0 is '1.0', not '1'
+    ({1.0: 'v'}, {'1.0': 'v'}, True), ({1.0: 'v'}, {1: 'v'}, False), ({-0.0: 'v'}, {'-0.0': 'v'}, True), ({1e22: 'v'}, {'1e+22': 'v'}, True),
+    ({0: 'x', 1: 'y'}, {'0': 'x', '1': 'y'}, True), ({0: 'x'}, {False: 'x'}, False), (True, 1.0, False), ([False], [-0.0], False),
     (1, 1.0, True), (1, True, False), (0, False, False), ([1, 2], (1, 2), True), ([1, 2], [2, 1], False),
     ({'a': 1, 'b': 2}, {'b': 2, 'a': 1}, True), ({1: 'x'}, {'1': 'x'}, True), ({'a': 1}, {'a': 1, 'b': None}, False),
     (None, 0, False), ('1', 1, False), (2 ** 70, float(2 ** 70), True), (-0.0, 0, True), ([], {}, False), ([[]], [()], True),
